@@ -4,7 +4,7 @@ programs the L0 theorems are about) on the same inputs as the real Go functions.
 soundness theorems are stated for.
 -/
 import Voi.Basic
-import Voi.IR.Basic
+import Voi.IR.Tree
 namespace Voi.Drv
 open Voi Voi.IR
 
@@ -13,6 +13,7 @@ structure IRProg where
   nin : Nat
   outs : List Nat
   ops : List Op
+  tree : Option DTree := none
 
 def parseOp (ws : List String) : Option Op :=
   match ws with
@@ -42,14 +43,58 @@ def parseProg (line : String) : Option IRProg :=
     match splitWords hd with
     | ["prog", name, nin, _inbits, outs] =>
       let ops' := ops.filterMap fun o => parseOp (splitWords o)
-      if ops'.length = ops.length then some ⟨name, nin.toNat!, parseNatList outs, ops'⟩ else none
+      if ops'.length = ops.length then some { name := name, nin := nin.toNat!, outs := parseNatList outs, ops := ops' } else none
     | ["prog", name, nin, _inbits] =>   -- a program without outputs
       let ops' := ops.filterMap fun o => parseOp (splitWords o)
-      if ops'.length = ops.length then some ⟨name, nin.toNat!, [], ops'⟩ else none
+      if ops'.length = ops.length then some { name := name, nin := nin.toNat!, outs := [], ops := ops' } else none
     | _ => none
 
+/-- segment text `op ; op ; …` (possibly empty) -/
+def parseOps (s : String) : Option (List Op) :=
+  let parts := (s.splitOn " ; ").map splitWords |>.filter (· ≠ [])
+  let ops := parts.filterMap parseOp
+  if ops.length = parts.length then some ops else none
+
+/-- recursive-descent parser for the tree text `( L ops | outs )` / `( N ops | c T E )`, on a token list -/
+def parseTree : Nat → List String → Option (DTree × List String)
+  | 0, _ => none
+  | fuel+1, "(" :: kind :: rest =>
+    let seg := rest.takeWhile (· ≠ "|")
+    let rest' := (rest.dropWhile (· ≠ "|")).drop 1
+    match parseOps (" ".intercalate seg) with
+    | none => none
+    | some ops =>
+      if kind = "L" then
+        match rest' with
+        | ")" :: r => some (.leaf ops [], r)
+        | outs :: ")" :: r => some (.leaf ops (parseNatList outs), r)
+        | _ => none
+      else
+        match rest' with
+        | c :: r =>
+          match parseTree fuel r with
+          | none => none
+          | some (t, r1) =>
+            match parseTree fuel r1 with
+            | none => none
+            | some (e, r2) =>
+              match r2 with
+              | ")" :: r3 => some (.node ops c.toNat! t e, r3)
+              | _ => none
+        | _ => none
+  | _, _ => none
+
+def parseTreeLine (line : String) : Option IRProg :=
+  match splitWords line with
+  | "tree" :: name :: nin :: _inbits :: rest =>
+    match parseTree 100000 rest with
+    | some (t, _) => some { name := name, nin := nin.toNat!, outs := [], ops := [], tree := some t }
+    | none => none
+  | _ => none
+
 def parseIR (text : String) : List IRProg :=
-  (text.splitOn "\n").filterMap fun l => if l.startsWith "prog " then parseProg l else none
+  (text.splitOn "\n").filterMap fun l =>
+    if l.startsWith "prog " then parseProg l else if l.startsWith "tree " then parseTreeLine l else none
 
 def handleT0 (progs : List IRProg) (op : String) (a : List String) : String :=
   match op, a with
@@ -61,6 +106,9 @@ def handleT0 (progs : List IRProg) (op : String) (a : List String) : String :=
     | some p =>
       let e : Env := ins.map String.toNat!
       if e.length ≠ p.nin then "err arity" else
+      match p.tree with
+      | some t => "ok" ++ String.join ((t.eval e).map fun v => " " ++ toString v)
+      | none =>
       let r := run p.ops e
       "ok" ++ String.join (p.outs.map fun o => " " ++ toString (get r o))
   | "runv", name :: ins =>
